@@ -38,45 +38,119 @@ end
 variable {K : Type} [Field K]
 variable {F : Type} [Field F] [LinearOrder F] [IsStrictOrderedRing F]
 
+theorem zipWith_sub_self_mul_sum (r b : List K) :
+    (List.zipWith (· * ·) (List.zipWith (· - ·) r r) b).sum = 0 := by
+  induction r generalizing b with
+  | nil => simp
+  | cons x xs ih =>
+    cases b with
+    | nil => simp
+    | cons y ys =>
+      simp only [List.zipWith_cons_cons, List.sum_cons, sub_self, zero_mul, zero_add]
+      exact ih ys
+
+theorem zipWith_shift (r o c : List K) (hr : r.length = o.length) (hc : c.length = o.length) :
+    List.zipWith (· - ·) (List.zipWith (· + ·) r c) (List.zipWith (· + ·) o c) =
+      List.zipWith (· - ·) r o := by
+  induction r generalizing o c with
+  | nil => simp
+  | cons x xs ih =>
+    cases o with
+    | nil => simp at hr
+    | cons y ys =>
+      cases c with
+      | nil => simp at hc
+      | cons z zs =>
+        simp only [List.length_cons, Nat.add_right_cancel_iff] at hr hc
+        simp only [List.zipWith_cons_cons, add_sub_add_right_eq_sub, ih ys zs hr hc]
+
+theorem sum_map_div (l : List K) (s : K) : (l.map (fun r => r / s)).sum = l.sum / s := by
+  induction l with
+  | nil => simp
+  | cons x xs ih => simp only [List.map_cons, List.sum_cons, ih, add_div]
+
+
 theorem adjust_formula' (theta : List K) (summaries : List (List K)) (observed beta : List K)
     (hlen : theta.length = summaries.length) (i : Nat) (hi : i < theta.length) :
     (adjust theta (regressors summaries observed) beta)[i]? =
       some (theta[i] - dot (List.zipWith (· - ·) (summaries[i]'(hlen ▸ hi)) observed) beta) ∧
     (adjust theta (regressors summaries observed) beta).length = theta.length := by
-  sorry
+  have hi' : i < summaries.length := hlen ▸ hi
+  refine ⟨?_, ?_⟩
+  · simp only [adjust, regressors, List.getElem?_zipWith, List.getElem?_map,
+      List.getElem?_eq_getElem hi, List.getElem?_eq_getElem hi']
+    simp
+  · simp only [adjust, regressors, List.length_zipWith, List.length_map]
+    omega
 
 theorem fixed_point' (t : K) (row observed beta : List K) (h : row = observed) :
     adjust [t] (regressors [row] observed) beta = [t] := by
-  sorry
+  subst h
+  simp only [adjust, regressors, List.map_cons, List.map_nil, List.zipWith_cons_cons,
+    List.zipWith_nil_right, dot, zipWith_sub_self_mul_sum, sub_zero]
 
 theorem mask_exact' (X : List (List (FV K))) (theta : List (FV K)) (hlen : X.length = theta.length) :
     (finiteMask X theta).length = theta.length ∧
     (∀ i (h₁ : i < (finiteMask X theta).length) (h₂ : i < X.length) (h₃ : i < theta.length),
       (finiteMask X theta)[i] = true ↔ ((∀ v ∈ X[i], v.isFinite = true) ∧ theta[i].isFinite = true)) ∧
     ∀ t ∈ select theta (finiteMask X theta), t.isFinite = true := by
-  sorry
+  refine ⟨?_, ?_, ?_⟩
+  · simp only [finiteMask, List.length_zipWith]; omega
+  · intro i h₁ h₂ h₃
+    simp only [finiteMask, List.getElem_zipWith, Bool.and_eq_true, List.all_eq_true]
+  · intro t ht
+    simp only [select, List.mem_filterMap] at ht
+    obtain ⟨p, hp, hpt⟩ := ht
+    obtain ⟨i, hi, hpi⟩ := List.mem_iff_getElem.mp hp
+    simp only [List.length_zip] at hi
+    rw [List.getElem_zip] at hpi
+    subst hpi
+    simp only at hpt
+    split at hpt
+    · rename_i hb
+      simp only [Option.some.injEq] at hpt
+      subst hpt
+      simp only [finiteMask, List.getElem_zipWith, Bool.and_eq_true] at hb
+      exact hb.2
+    · exact absurd hpt (by simp)
 
 theorem mask_per_parameter' (X : List (List (FV K))) (t₁ t₂ : List (FV K)) (i : Nat)
     (h : ∀ j, j ≠ i → t₁[j]? = t₂[j]?) (hl : t₁.length = t₂.length) (k : Nat) (hk : k ≠ i) :
     (finiteMask X t₁)[k]? = (finiteMask X t₂)[k]? := by
-  sorry
+  simp only [finiteMask, List.getElem?_zipWith, h k hk]
 
 theorem affine_invariant' {n k : Nat} (X : Matrix (Fin n) (Fin k) K) (A Ainv : Matrix (Fin k) (Fin k) K)
     (hA : A * Ainv = 1) (y : Fin n → K) (α : K) (β : Fin k → K)
     (hne : NormalEq X y α β) :
     NormalEq (X * A) y α (Ainv.mulVec β) ∧ (X * A).mulVec (Ainv.mulVec β) = X.mulVec β := by
-  sorry
+  have hfit : (X * A).mulVec (Ainv.mulVec β) = X.mulVec β := by
+    rw [Matrix.mulVec_mulVec, Matrix.mul_assoc, hA, Matrix.mul_one]
+  refine ⟨⟨?_, ?_⟩, hfit⟩
+  · have hr : (fun i => y i - α - ((X * A).mulVec (Ainv.mulVec β)) i) =
+        (fun i => y i - α - (X.mulVec β) i) := by
+      funext i; rw [congrFun hfit i]
+    rw [hr, Matrix.transpose_mul, ← Matrix.mulVec_mulVec, hne.1, Matrix.mulVec_zero]
+  · have hr : (fun i => y i - α - ((X * A).mulVec (Ainv.mulVec β)) i) =
+        (fun i => y i - α - (X.mulVec β) i) := by
+      funext i; rw [congrFun hfit i]
+    rw [hr]; exact hne.2
 
 theorem shift_cancels' (summaries : List (List K)) (observed c : List K)
     (hrow : ∀ r ∈ summaries, r.length = observed.length) (hc : c.length = observed.length) :
     regressors (summaries.map (fun r => List.zipWith (· + ·) r c)) (List.zipWith (· + ·) observed c) =
       regressors summaries observed := by
-  sorry
+  simp only [regressors, List.map_map]
+  apply List.map_congr_left
+  intro r hr
+  simp only [Function.comp]
+  exact zipWith_shift r observed c (hrow r hr) hc
 
 theorem compare_sums_to_one' (sort : List (F × Nat) → List (F × Nat)) (ms : List (ModelSample F))
     (priors : Option (List F)) (hpos : (compareModelsRaw sort ms priors).sum ≠ 0) :
     (compareModels sort ms priors).sum = 1 := by
-  sorry
+  have h : compareModels sort ms priors =
+      (compareModelsRaw sort ms priors).map (fun r => r / (compareModelsRaw sort ms priors).sum) := rfl
+  rw [h, sum_map_div, div_self hpos]
 
 theorem compare_proportional' (sort : List (F × Nat) → List (F × Nat)) (ms : List (ModelSample F))
     (priors : Option (List F)) (i : Nat) (hi : i < ms.length) :
@@ -85,6 +159,15 @@ theorem compare_proportional' (sort : List (F × Nat) → List (F × Nat)) (ms :
     (compareModelsRaw sort ms priors)[i]? = some
       ((((((sort (tagged ms)).take (nMin ms)).filter (fun t => t.2 == i)).length : F) / ((ms[i]).nSim : F)) *
         (match priors with | none => 1 | some pr => pr.getD i 1)) := by
-  sorry
+  refine ⟨?_, ?_⟩
+  · have h : compareModels sort ms priors =
+        (compareModelsRaw sort ms priors).map (fun r => r / (compareModelsRaw sort ms priors).sum) := rfl
+    have hl : i < (compareModelsRaw sort ms priors).length := by
+      simp only [compareModelsRaw, List.length_map, List.length_zipIdx]; exact hi
+    rw [h, List.getElem?_map, List.getElem?_eq_getElem hl, Option.map_some]
+    simp [hl]
+  · simp only [compareModelsRaw, List.getElem?_map, List.getElem?_zipIdx, List.getElem?_eq_getElem hi,
+      Option.map_some, Nat.zero_add]
+    cases priors <;> simp only [mul_one]
 
 end ElfiVerif.Adjust
